@@ -592,10 +592,19 @@ def check(pid, tier, seed):
         discharged += 1   # the correspondence obligation
     known_hits = {}
     new_mon = []
-    for f in mon:
+    fired = {}     # id(case) -> known entries that already fired in that case
+    for f in mon:  # findings of one case arrive in op order
         k = match_known(pid, f, known)
+        if not k:
+            # a persistent-state consequence of a known finding that fired EARLIER IN THE SAME CASE:
+            # same verdict text pattern, later op (a different verdict is still reported as new)
+            for kk in fired.get(id(f.case), []):
+                if kk.get("verdict_re") and re.search(kk["verdict_re"], f.verdict):
+                    k = kk
+                    break
         if k:
             known_hits.setdefault(k["id"], (k, f))
+            fired.setdefault(id(f.case), []).append(k)
         else:
             new_mon.append(f)
 
